@@ -46,7 +46,12 @@ RepOk(pre, x, g) ==
   /\ g.nameok = 1
   /\ g.argsok = 1
   /\ CASE x.kind = "nomatch" ->
-            g.fn = x.fn /\ g.args = x.args /\ g.lk = x.lk /\ g.lst = x.lst /\ g.det = x.det
+            /\ g.fn = x.fn /\ g.args = x.args /\ g.lk = x.lk
+            \* live expectations are listed newest first; the order among the saturated ones is not specified
+            /\ IF x.lk = 1
+               THEN Len(g.lst) = Len(x.lst) /\ Len(g.det) = Len(g.lst)
+                    /\ {<<g.lst[i], g.det[i]>> : i \in 1..Len(g.lst)} = {<<x.lst[i], x.det[i]>> : i \in 1..Len(x.lst)}
+               ELSE g.lst = x.lst /\ g.det = x.det
        [] x.kind = "forbidden" ->
             g.ent = x.ent /\ g.locent = x.ent /\ g.args = x.args /\ g.sh = EntSh(pre, x.ent)
        [] x.kind = "seqmismatch" ->
